@@ -488,6 +488,14 @@ func init() {
 			r.h.noteStub("uninterpreted injective function " + name)
 			return r.newByteSlice(out, len(out))
 		},
+		zz + "Fn": func(r *Run, fn *ssa.Function, a []Value) Value {
+			// uninterpreted function (functional consistency only, no injectivity) of a byte string with n output bytes
+			name, n := strArg(a[0]), intArg(a[1])
+			in := r.sliceBytes(a[2].(*SliceV))
+			out := r.digest(fmt.Sprintf("fn:%s:%d", name, n), in)
+			r.h.noteStub("uninterpreted function " + name)
+			return r.newByteSlice(out, len(out))
+		},
 		"crypto/sha256.Sum256": func(r *Run, fn *ssa.Function, a []Value) Value {
 			out := r.digest("sha256", r.sliceBytes(a[0].(*SliceV)))
 			return bytesToArray(out)
@@ -718,7 +726,7 @@ func digestSize(alg string) int {
 	if strings.HasPrefix(alg, "hmac-") {
 		return digestSize(alg[5:])
 	}
-	if strings.HasPrefix(alg, "uf:") {
+	if strings.HasPrefix(alg, "uf:") || strings.HasPrefix(alg, "fn:") {
 		var n int
 		fmt.Sscanf(alg[strings.LastIndex(alg, ":")+1:], "%d", &n)
 		return n
@@ -786,7 +794,8 @@ func realHash(alg string) hash.Hash {
 // of the same algorithm on this path.
 func (r *Run) digest(alg string, stream []*Term) []*Term {
 	ts := r.ts
-	if cb, ok := concreteBytes(stream); ok && !strings.HasPrefix(alg, "uf:") {
+	plainFn := strings.HasPrefix(alg, "fn:")
+	if cb, ok := concreteBytes(stream); ok && !strings.HasPrefix(alg, "uf:") && !plainFn {
 		var sum []byte
 		if strings.HasPrefix(alg, "hmac-") {
 			kl := int(cb[0])<<8 | int(cb[1])
@@ -826,16 +835,24 @@ func (r *Run) digest(alg string, stream []*Term) []*Term {
 			outEq = ts.BAnd(outEq, ts.Eq(out[i], d.out[i]))
 		}
 		if len(d.stream) != len(stream) {
-			r.addPC(ts.BNot(outEq)) // H-inj across lengths
+			if !plainFn {
+				r.addPC(ts.BNot(outEq)) // H-inj across lengths
+			}
 			continue
 		}
 		sEq := ts.Bool(true)
 		for i := range stream {
 			sEq = ts.BAnd(sEq, ts.Eq(stream[i], d.stream[i]))
 		}
-		r.addPC(ts.Eq(sEq, outEq))
+		if plainFn {
+			r.addPC(ts.BOr(ts.BNot(sEq), outEq))
+		} else {
+			r.addPC(ts.Eq(sEq, outEq))
+		}
 	}
-	r.h.noteAssumption("H-inj: " + alg + " is treated as an injective function on the streams hashed along a path")
+	if !plainFn {
+		r.h.noteAssumption("H-inj: " + alg + " is treated as an injective function on the streams hashed along a path")
+	}
 	r.digests = append(r.digests, &digestRec{alg: alg, stream: append([]*Term{}, stream...), out: out})
 	return out
 }
